@@ -509,6 +509,9 @@ func (d *Data) sendBlocksVolume(ctx *datastore.VersionedCtx, w http.ResponseWrit
 	// convert x,y,z coordinates to block coordinates for this scale
 	blocksdims := subvol.Size().Div(d.BlockSize())
 	blocksoff := subvol.StartPoint().Div(d.BlockSize())
+	if blocksdims.Value(0) <= 0 || blocksdims.Value(1) <= 0 || blocksdims.Value(2) <= 0 {
+		return fmt.Errorf("size of requested blocks must be positive in each dimension, got %s", subvol.Size())
+	}
 
 	timedLog := dvid.NewTimeLog()
 	defer timedLog.Infof("SendBlocks %s, span x %d, span y %d, span z %d", blocksoff, blocksdims.Value(0), blocksdims.Value(1), blocksdims.Value(2))
